@@ -87,3 +87,13 @@ package recovery
 //@   modifies nothing
 //@   ensures[C01.recovery-ok] result1 == nil ==> len(result0) > 0 && database.resultsOK(db, result0) && database.sortedDesc(result0)
 //@   ensures[C01.recovery-shape] result1 != nil ==> len(result0) == 0
+
+// The recovery search as the CLI uses it (C01): at most the limit in force, the same real,
+// distinct, non-negative, ordered entries. RecoverFromSearchFailure itself is reachable only
+// through it (static obligation callers-only).
+//@ func (*SearchRecovery).RecoverWithLimit
+//@   requires db != nil
+//@   modifies nothing
+//@   ensures[C01.recovery-limit] len(result0) <= database.effLimit(limit)
+//@   ensures[C01.recovery-limited-ok] result1 == nil ==> len(result0) > 0 && database.resultsOK(db, result0) && database.sortedDesc(result0)
+//@   ensures[C01.recovery-limited-shape] result1 != nil ==> len(result0) == 0
